@@ -281,6 +281,9 @@ func skeleton(dir, typ, method string) ([]string, error) {
 
 func main() {
 	root := "/repo"
+	if r := os.Getenv("VERIF_REPO"); r != "" {
+		root = r
+	}
 	items := []struct{ name, dir, typ, method string }{
 		{"skel_ring_push", "pkg/ringbuffer", "RingBuffer", "Push"},
 		{"skel_ring_pull", "pkg/ringbuffer", "RingBuffer", "Pull"},
